@@ -65,7 +65,8 @@ def run(tier):
     nrand = 60 if tier == "quick" else 1500
     rspecs = LX.random_specs(K.seed(), nrand)
     rnames = {s_.name for s_ in rspecs}
-    specs = specs + rspecs
+    # range-refinement family (systematic shapes + seeded random); counted with the corpus sets
+    specs = specs + LX.refine_specs(K.seed(), 30 if tier == "quick" else 400) + rspecs
     samples, inconclusive, violations = [], [], []
     disagreements = 0
     skipped = 0
